@@ -468,6 +468,12 @@ def ref_step(st, op):
         else:
             s2.pop(h, None)
         return upd(r, ["S", s2], "R%d" % r)
+    if name == "enumerate":
+        if kind == "L":
+            return alloc(["L", [("L", [("i", i), x]) for i, x in enumerate(o[1])]])
+        if kind == "M":
+            return alloc(["L", [("L", [("s", k), o[1][k]]) for k in sorted(o[1])]])
+        return None
     if name in ("sunion", "sinter"):
         o2 = st[a[1]]
         if o2[0] != "S":
@@ -707,7 +713,9 @@ def gen_store_case(r, maxlen, malformed, flavour):
             elif c < 34:
                 op = ("clear", t)
             elif c < 36:
-                op = (r.choice(["copy", "reversed", "keys"]), t)
+                op = (r.choice(["copy", "reversed", "keys", "enumerate"]), t)
+                if op[0] == "enumerate":
+                    script_only = True
             elif c < 37:
                 t2 = pick(r, st, "L") if not bad else r.below(len(st))
                 op = ("concat", t, t2 if t2 is not None else t)
@@ -755,7 +763,9 @@ def gen_store_case(r, maxlen, malformed, flavour):
                 t2 = pick(r, st, "M") if not bad else r.below(len(st))
                 op = ("mupdate", t, t2 if t2 is not None else t)
             elif c < 17:
-                op = (r.choice(["keys", "mvalues", "mitems", "copy"]), t)
+                op = (r.choice(["keys", "mvalues", "mitems", "copy", "enumerate"]), t)
+                if op[0] == "enumerate":
+                    script_only = True
             elif c < 18:
                 op = ("contains", t, key)
             elif c < 19:
@@ -973,7 +983,7 @@ def judge_store(ops, line, F, case_text, stats):
                 return
 
 
-READONLY = {"get", "slice", "contains", "len", "copy", "count", "index", "reversed", "sorted", "keys", "concat", "map_val",
+READONLY = {"enumerate", "get", "slice", "contains", "len", "copy", "count", "index", "reversed", "sorted", "keys", "concat", "map_val",
             "map_idx", "map_pair", "map_idxcopy", "filter_truthy", "filter_all", "filter_none", "mgetd", "mvalues", "mitems",
             "sunion", "sinter", "newlist", "newmap", "newset"}
 
